@@ -90,6 +90,7 @@ KANI_META.update({
     'k_stat_monomorphic_1d': K('bounded', 'shapes [4], [5]; monomorphic cells over all f64 bit patterns', ['Theta<Watterson/Tajima>', 'D<Tajima/FuLi>', 'Scs::segregating_sites']),
     'k_stat_monomorphic_2d': K('bounded', 'shapes [3,3], [2,4]; monomorphic cells over all f64 bit patterns', ['PiXY', 'King', 'R0', 'R1', 'Scs::segregating_sites']),
     'k_stat_s_sum_pixy_definition': K('bounded', 'shape [3,4], integer-valued cells', ['Spectrum::sum', 'Scs::segregating_sites', 'PiXY::from_spectrum']),
+    'k_project_individuals_no_wrap': K('complete', 'none: all usize values of one and two --project-individuals entries (the map/collect loop runs at most twice, unwinding assertion on)', ['Project::shape (site reader builder)']),
     'k_stat_theta_pi_definition': K('bounded', 'count spectra with 3, 4, 5 chromosomes, one concrete table each, tolerance 1e-9; utils::binomial stubbed by its table', ['Theta<Watterson>::from_spectrum', 'Theta<Tajima>::from_spectrum', 'Estimator::estimate_unchecked', 'utils::harmonic']),
     'k_stat_f2_fst_definition': K('bounded', 'one normalised 3x4 table and its transpose, tolerance 1e-9; f64::powi stubbed by repeated multiplication', ['F2::from_sfs', 'Fst::from_sfs', 'FrequenciesIter::next', 'Spectrum::into_normalized']),
     'k_stat_f3_definition': K('bounded', 'one normalised 2x3x3 table, tolerance 1e-9; Array::sum stubbed by its contract, f64::powi by repeated multiplication', ['F3::from_sfs', 'F2::from_sfs', 'Spectrum::marginalize', 'FrequenciesIter::next']),
@@ -127,7 +128,7 @@ REGISTRY = {
         'level': 'model_checking',
         'verus': ['v_projiter'],
         'verus_pairs': {'v_projiter': ['k_proj_wiring_3x2_to_2x2']},
-        'kani_quick': ['k_site_projdec_aab_c0_to22', 'k_site_projdec_aab_c1_to20', 'k_site_projval_aab_to21', 'k_proj_validation_2d'],
+        'kani_quick': ['k_site_projdec_aab_c0_to22', 'k_site_projdec_aab_c1_to20', 'k_site_projval_aab_to21', 'k_proj_validation_2d', 'k_project_individuals_no_wrap'],
         'kani_thorough': ['k_site_projdec_aab_c2_to42', 'k_site_projdec_baa_c1_to02', 'k_site_projdec_nba_c0_to22', 'k_site_projval_baa_to12', 'k_site_projval_aab_to02', 'k_proj_wiring_4_to_3', 'k_proj_wiring_3x2_to_2x2', 'k_proj_validation_dimensions'],
         'assumptions': [A_NOODLES, A_SAMPLEMAP, A_PMF, A_BIN, 'site::reader::Builder::build (dimension/size validation against the sample map, individuals -> 2i+1) needs the hash-map sample table and is not verified'],
         'not_decided': ['values of the hypergeometric pmf', '--project-individuals i == --project-shape 2i+1 (builder.rs Project::shape, not under contract)', '--precision printing'],
@@ -241,7 +242,7 @@ REGISTRY = {
         'title': 'every invocation ends in success or a diagnosed error, never a panic',
         'level': 'model_checking',
         'verus': ['v_axis', 'v_view', 'v_axisiter', 'v_npyhdr', 'v_indexsum', 'v_projiter'],
-        'kani_quick': ['k_detect_spectrum_format', 'k_index_new_absurd_shape', 'k_marg_errors', 'k_proj_validation_2d', 'k_stat_total_1d_1', 'k_stat_total_1d_2', 'k_stat_total_1d_3'],
+        'kani_quick': ['k_detect_spectrum_format', 'k_index_new_absurd_shape', 'k_marg_errors', 'k_proj_validation_2d', 'k_project_individuals_no_wrap', 'k_stat_total_1d_1', 'k_stat_total_1d_2', 'k_stat_total_1d_3'],
         'kani_thorough': STAT_TOTAL + ['k_fold_empty'],
         'assumptions': [A_BIN, A_NOODLES, 'panic-freedom (overflow, bounds, unwrap/expect, division) is an obligation of every function under contract in the Verus units and of every Kani harness; it is claimed for those functions under their stated preconditions only'],
         'not_decided': ['totality of the process over arbitrary bytes (noodles, flate2, nom, clap)', "main's mapping of Err to exit status 1", 'sample::Map::shape unwrap on contradictory sample lists'],
